@@ -39,6 +39,12 @@ async def expect_async(expecter, timeout=None):
         return await asyncio.wait_for(pattern_waiter.fut, timeout)
     except asyncio.TimeoutError as exc:
         transport.pause_reading()
+        fut = pattern_waiter.fut
+        if fut.done() and not fut.cancelled():
+            # The match (or EOF) was found in the same loop iteration in
+            # which the timer fired.  Its text has already been consumed,
+            # so report that outcome rather than a TIMEOUT.
+            return fut.result()
         return expecter.timeout(exc)
 
 
